@@ -6,15 +6,21 @@
    minute belong to the parsed sets and the day passes the dom/dow rule (OR when both sets are restricted, the
    restricted one otherwise, "restricted" = fewer than 31 / 7 values); C16 says what the parsed sets contain.
 
-   PROVED (partial correctness, for every schedule, clock, state, history and every amount of fuel):
-   whenever a call returns a time, that time is a whole minute, matches the schedule, is strictly later than
-   both the clock's minute and the previously returned time, and no matching minute lies in between
-   (nothing skipped, nothing repeated); results of consecutive calls strictly increase.
-   NOT PROVED here (checked by the differential run only): that a call on a satisfiable schedule does return
-   (termination within the fuel and absence of a panic before the range end).  Named *_partial for that reason. *)
-From Astro Require Import Base Text CalSpec DateModel TimeModel ApiModel InstantSpec ClockProofs CronModel CronIterProofs.
+   PROVED, for every schedule, clock reading, state, history:
+   (a) whenever a call returns a time, that time is a whole minute, matches the schedule, is strictly later than both the
+       clock's minute and the previously returned time, and no matching minute lies in between (C17_next_sound,
+       C17_history, for every amount of fuel);
+   (b) when a matching minute lies ahead of both bounds, at least 31 days before the end of the representable range,
+       the call does return - no panic, no error - provided the fuel covers the distance in minutes (the loop makes at
+       most one pass per minute; the fuel is the model's stand-in for "the loop runs until it returns") (C17_next_total);
+   (c) hence, under the hypothesis of (b), the call returns exactly the least matching minute (C17_next).
+   The margin in (b) is real: in the last month of the range add_months(1) overflows before the search reaches a
+   match in the following month, and the code panics there.
+   An unsatisfiable schedule ("0 0 31 2 *") makes the real loop run to the end of the range and panic; that is outside
+   the property's quantifier (satisfiable schedules) and outside (b)'s hypothesis. *)
+From Astro Require Import Base Text CalSpec DateModel TimeModel ApiModel InstantSpec ClockProofs CronModel CronIterProofs CronTotal.
 
-Theorem C17_next_partial : forall fuel s last now r,
+Theorem C17_next_sound : forall fuel s last now r,
   in_i32 (dt_days now) -> 0 <= dt_nanos now < D -> dt_off now = 0 -> last_ok last ->
   cron_next fuel s last now = Ok (Some r) ->
   exists d' mi', r = mkmin d' mi' /\ in_i32 d' /\ 0 <= mi' < 1440 /\ base_idx last now < idx d' mi' /\
@@ -22,7 +28,7 @@ Theorem C17_next_partial : forall fuel s last now r,
                  forall e me, 0 <= me < 1440 -> base_idx last now < idx e me < idx d' mi' -> sched_matches s e me = false.
 Proof. exact next_spec. Qed.
 (* every history of calls with arbitrary clock readings in between (induction over the list of readings) *)
-Theorem C17_history_partial : forall fuel s clocks st rs, Forall clock_ok clocks -> last_ok st ->
+Theorem C17_history : forall fuel s clocks st rs, Forall clock_ok clocks -> last_ok st ->
   run_hist fuel s st clocks = Some rs -> hist_ok s st clocks rs.
 Proof. exact history_spec. Qed.
 Theorem C17_results_increase : forall s prev now r, last_ok (Some prev) -> least_after s (Some prev) now r ->
@@ -40,6 +46,30 @@ Theorem C17_body : forall s domr dowr d mi, in_i32 d -> 0 <= mi < 1440 ->
   end.
 Proof. exact body_spec. Qed.
 
+(* (b) the call returns when a matching minute lies ahead *)
+Theorem C17_next_total : forall fuel s last now e ms,
+  in_i32 (dt_days now) -> 0 <= dt_nanos now < D -> dt_off now = 0 -> last_ok last ->
+  0 <= ms < 1440 -> in_i32 (e + 31) -> sched_matches s e ms = true -> base_idx last now < idx e ms ->
+  (Z.to_nat (idx e ms - base_idx last now) <= fuel)%nat ->
+  exists r, cron_next fuel s last now = Ok (Some r).
+Proof. exact next_total. Qed.
+(* (c) ... and what it returns is the least matching minute after both bounds *)
+Theorem C17_next : forall fuel s last now e ms,
+  in_i32 (dt_days now) -> 0 <= dt_nanos now < D -> dt_off now = 0 -> last_ok last ->
+  0 <= ms < 1440 -> in_i32 (e + 31) -> sched_matches s e ms = true -> base_idx last now < idx e ms ->
+  (Z.to_nat (idx e ms - base_idx last now) <= fuel)%nat ->
+  exists d' mi', cron_next fuel s last now = Ok (Some (mkmin d' mi')) /\ in_i32 d' /\ 0 <= mi' < 1440 /\
+                 base_idx last now < idx d' mi' <= idx e ms /\ sched_matches s d' mi' = true /\
+                 forall e' me, 0 <= me < 1440 -> base_idx last now < idx e' me < idx d' mi' -> sched_matches s e' me = false.
+Proof.
+  intros fuel s last now e ms Hd Hn Ho HL Hms He Hm Hlt Hf.
+  destruct (next_total fuel s last now e ms Hd Hn Ho HL Hms He Hm Hlt Hf) as [r Er].
+  destruct (next_spec fuel s last now r Hd Hn Ho HL Er) as (d' & mi' & -> & Hd' & Hmi' & Hb & M & Hno).
+  exists d', mi'. split; [exact Er|]. split; [exact Hd'|]. split; [exact Hmi'|]. split; [|split; [exact M | exact Hno]].
+  split; [exact Hb|]. destruct (Z.le_gt_cases (idx d' mi') (idx e ms)) as [H | H]; [exact H|]. exfalso.
+  specialize (Hno e ms Hms ltac:(lia)). congruence.
+Qed.
+
 (* non-vacuity: "0 0 29 2 *" from 2023-03-01T00:00:30Z returns 2024-02-29T00:00 *)
 Example C17_example :
   let s := mkSched [0] [0] [29] [2] (range_incl 0 6) in
@@ -47,8 +77,10 @@ Example C17_example :
   days_to_date 738944 = (2024, 2, 29).
 Proof. split; vm_compute; reflexivity. Qed.
 
-Print Assumptions C17_next_partial.
-Print Assumptions C17_history_partial.
+Print Assumptions C17_next_sound.
+Print Assumptions C17_next_total.
+Print Assumptions C17_next.
+Print Assumptions C17_history.
 Print Assumptions C17_results_increase.
 Print Assumptions C17_whole_minute.
 Print Assumptions C17_body.
